@@ -25,6 +25,15 @@ class Gen:
         self.nvar += 1
         return "%s%d" % (p, self.nvar)
 
+    def binder(self, ty, p="v"):
+        """Name for a new binder of type ty. With feature "shadow" it is sometimes the name of a visible variable of
+        the SAME type (never a while-loop counter), so that the new binder shadows it."""
+        if "shadow" in self.features and self.r.random() < 0.3:
+            vs = [v for v in self.vars_of(ty) if not v.startswith("i")]
+            if vs:
+                return self.pick(vs)
+        return self.fresh(p)
+
     def vars_of(self, ty):
         out = []
         for sc in self.scopes:
@@ -148,7 +157,7 @@ class Gen:
         if k <= 2:
             ty = self.pick(TYPES)
             e = self.expr(ty, 1)
-            v = self.fresh()
+            v = self.binder(ty)
             self.scopes[-1][v] = ty
             return "let %s = %s" % (v, e)
         if k == 3:
@@ -176,7 +185,7 @@ class Gen:
             self.scopes.pop()
             return "let %s = 0\nwhile %s < %d %s" % (i, i, bound, self.fmt_block(["%s += 1" % i] + body, 0))
         if k == 8 and nested and "for" in self.features:
-            x = self.fresh("x")
+            x = self.binder("Int", "x")
             it = self.expr("ListInt", 1)
             self.scopes.append({x: "Int"})
             body = self.block(r.randrange(1, 3), d + 1, True, in_fun, ret)
@@ -187,7 +196,7 @@ class Gen:
         if k == 10 and in_fun and ret and "return" in self.features:
             return "if %s { return %s }" % (self.expr("Bool", 2), self.expr(ret, 2))
         if k == 11 and nested and "match" in self.features:
-            m = self.fresh("m")
+            m = self.binder("Int", "m")
             sc = self.expr("OptInt", 1)
             self.scopes.append({m: "Int"})
             a = self.block(1, d + 1, in_loop, in_fun, ret)
@@ -196,7 +205,7 @@ class Gen:
             return "match %s {\n  Some(%s) => %s\n  None => %s\n}" % (sc, m, self.fmt_block(a, 1), self.fmt_block(b, 1))
         if k == 12 and "closure" in self.features and nested:
             f = self.fresh("f")
-            p = self.fresh("p")
+            p = self.binder("Int", "p")
             self.scopes.append({p: "Int"})
             body = self.expr("Int", 1)
             self.scopes.pop()
